@@ -139,21 +139,33 @@ def _subst_atoms(t, m):
 
 def lift(t, depth=0):
     """Lift if-then-else atoms out of polynomials / calls: f(ite(c,a,b)) -> ite(c, f(a), f(b)).
-    Redoes the polynomial arithmetic in both arms so that the arms are canonical."""
+    All ite nodes testing the same condition are resolved together (so infeasible
+    combinations never appear) and polynomial arithmetic is redone in each arm."""
     from .sym import atoms_of
-    if depth > 6 or not isinstance(t, tuple) or not t:
+    if depth > 8 or not isinstance(t, tuple) or not t:
         return t
+    ites = [a for a in atoms_of(t) if a[0] == "ite"]
     if t[0] == "ite":
-        return ("ite", t[1], lift(t[2], depth), lift(t[3], depth))
-    ites = [a for a in atoms_of(t) if a[0] == "ite" and a != t]
+        ites.append(t)
     if not ites:
         return t
-    # choose an outermost ite (one that is not inside another ite atom)
+    # outermost condition first: the largest ite term
     ites.sort(key=lambda a: -len(repr(a)))
-    it = ites[0]
-    a = renorm(_replace(t, it, it[2]))
-    b = renorm(_replace(t, it, it[3]))
-    return ("ite", it[1], lift(a, depth + 1), lift(b, depth + 1))
+    c = ites[0][1]
+    a = renorm(assume(t, c, True))
+    b = renorm(assume(t, c, False))
+    if a == b:
+        return lift(a, depth + 1)
+    return ("ite", c, lift(a, depth + 1), lift(b, depth + 1))
+
+
+def assume(t, cond, value):
+    """Resolve every if-then-else on *cond* in t under the assumption cond == value."""
+    if not isinstance(t, tuple) or not t:
+        return t
+    if t[0] == "ite" and t[1] == cond:
+        return assume(t[2] if value else t[3], cond, value)
+    return tuple(assume(x, cond, value) if isinstance(x, tuple) else x for x in t)
 
 
 def _replace(t, old, new):
